@@ -543,6 +543,12 @@ func (c *Compiler) applyUsesToNode(mod, nod, use parse.Node, parentStatus schema
 
 	refinedNodes := []parse.Node{}
 	for _, kid := range group.Children() {
+		switch kid.Type() {
+		case parse.NodeDescription, parse.NodeReference, parse.NodeStatus:
+			// These describe the grouping itself, not the node that
+			// uses it.
+			continue
+		}
 		newKid := kid.Clone(kidmod)
 		inheritCommonProperties(use, newKid, false)
 
